@@ -173,7 +173,7 @@ class Profile(object):
   use_while = True
   use_for = True
   use_jumps = True
-  use_chain_side_effect = False   # a < T() < c  (recorded finding: middle evaluated twice)
+  use_chain_side_effect = True    # a < T() < c  (fixed finding chained-comparison-middle-operand-evaluated-twice)
   use_loop_else = False
   use_boolops = True
   use_ifexp = True
